@@ -131,7 +131,8 @@ def _run(chk, tier, model_ok):
         if len(chk.violations) >= 12:
             chk.extra["stopped_early"] = "12 violations reported; remaining cases not run"
             break
-        cmds = viewcorr.pair_commands(r, case, 8 if quick else 24)
+        cmds = viewcorr.pinned_commands(case, ("EQ", "CP", "CPO")) + \
+            viewcorr.pair_commands(r, case, 8 if quick else 24)
 
         def on_crash(cmd, rr, case=case):
             key = viewcorr.crash_key(rr, cmd, case)
